@@ -171,6 +171,14 @@ func Matches(s, alphabet string) bool {
 
 func Note(key, val string) { mu.Lock(); notes[key] = val; mu.Unlock() }
 func AllowPanic()          {}
+
+// CountCalls/Calls: engine-side call counters (native: always 0, so bounds hold trivially).
+func CountCalls(fn string) {}
+func Calls(fn string) int { return 0 }
+
+// Steps is the number of SSA instructions executed so far on this path (native: 0).
+func Steps() int { return 0 }
+func NoteInt(key string, v int) { Note(key, fmt.Sprint(v)) }
 func AssumeCleanPaths()    {}
 func MapOrder(on bool)     {}
 func Yield()               {}
